@@ -26,6 +26,7 @@ const (
 	c04Success   = iota // reply with success result code
 	c04Failed           // reply with failed result code
 	c04Transport        // transport error / no reply (timeout error of SendSyncRequest)
+	c04Empty            // the request goes out without error but no reply body comes back
 )
 
 type c04Call struct {
@@ -77,10 +78,13 @@ func (e *c04Env) send(_ *getty.GettyRemotingClient, msg interface{}) (interface{
 			e.cancel()
 		}
 		e.phase2++
-		r := vrt.Choice("phase2.reply", 3)
+		r := vrt.Choice("phase2.reply", 4)
 		e.calls = append(e.calls, c04Call{kind: kind, xid: xid, reply: r})
 		if r == c04Transport {
 			return nil, errors.New("wait response timeout")
+		}
+		if r == c04Empty {
+			return nil, nil
 		}
 		end := message.AbstractGlobalEndResponse{GlobalStatus: message.GlobalStatus(vrt.Uint8("phase2.status"))}
 		if r == c04Success {
@@ -208,7 +212,7 @@ func VerifC04Gtx() {
 		if c.reply == c04Success {
 			acked = true
 		}
-		if c.reply != c04Transport {
+		if c.reply == c04Success || c.reply == c04Failed {
 			answered = true
 		}
 	}
@@ -235,7 +239,6 @@ func VerifC04Gtx() {
 		vrt.Assert(err != nil, "c04/cancelled=>error")
 	}
 }
-
 
 // VerifC04Nested: the initiator's decision when its callback runs an inner
 // scope on the same context whose begin fails (or succeeds) and tolerates the
